@@ -307,3 +307,13 @@ COMMON = [
     (r"Matrix::<.*>::ncols$", s_uf_usize("ncols")),
     (r"impl Matrix<.*>>::is_empty$", s_is_empty),
 ]
+
+
+def warm():
+    """setup: dump the MIR once so that the nightly build caches are warm"""
+    d = dump_mir()
+    print("engine M warm-up: MIR dumped,", sum(1 for _ in open(d["on"])), "lines")
+    try:
+        dump_mir(features="parallel")
+    except ToolFailure as e:
+        print("engine M warm-up (parallel):", e)
